@@ -19,6 +19,7 @@ func init() {
 			"the hold-back anomalies of H264Payloader for parameter sets that are not an SPS immediately followed by a PPS, and the silent drop of a STAP-A larger than the MTU, are listed known findings matched by an exact defect model of the hold-back state machine",
 			"wide scenario: every NAL type 1-23 x NRI 0-3 alone and after an SPS/PPS pair; units of 300, 257*(MTU-2)+1 (more than 256 fragments), 70000 bytes for MTU {5,100,1200}; SPS/PPS of {6,255,256,257,700,32766} x {6,255,256,300,32765} bytes at MTU 1200 and 65535; all sequences of 5 (thorough: 6) units over {slice 2B, slice MTU+1, SPS+PPS pair, lone SPS, lone PPS} split over three calls",
 			"unit bodies: EVERY body of 1-7 bytes (thorough: 8) over {00,01,03,FF} that is legal inside a NAL unit (no 00 00 00 / 00 00 01, no trailing 00) as a type-5 unit between two other units, 3- and 4-byte start codes, MTU {5,100}",
+			"second instance: in the wide scenario every case also runs with an unrelated second H264Payloader (holding an SPS, fed fragmented units in between) and H264Packet (holding an unfinished FU-A unit) whose calls are interleaved with those of the instances under test",
 			"decoder side: F bit 0, FU-A trains of 2-4 fragments with every split point of units of up to 8 bytes",
 		},
 		Scenarios: []mc.Scenario{
@@ -174,13 +175,24 @@ func c10Core(c *mc.Ctx, mtu int, disableStapA, avc bool, raw [][]byte, codes []i
 	}
 
 	p := &codecs.H264Payloader{DisableStapA: disableStapA}
+	// a second, unrelated payloader and depacketizer are used in between when c10Decoy is set:
+	// instances must not influence each other (state kept at package level would)
+	var decoyP *codecs.H264Payloader
+	var decoyD *codecs.H264Packet
+	if c10Decoy {
+		decoyP, decoyD = &codecs.H264Payloader{DisableStapA: disableStapA}, &codecs.H264Packet{IsAVC: !avc}
+		decoyP.Payload(uint16(mtu), ref.AnnexB([][]byte{ref.H264Unit(7, 3, 3, 0x51)}, []int{4}))
+	}
 	var payloads [][]byte
 	for ci, call := range calls {
-		in := ref.AnnexB(call, callCodes[ci])
-		keep := clone(in)
+		if decoyP != nil {
+			decoyP.Payload(uint16(mtu), ref.AnnexB([][]byte{ref.H264Unit(8, 3, 3, 0x52), ref.H264Unit(5, 1, 2*mtu+3, 0x53), ref.H264Unit(7, 3, 4, 0x54)}, []int{3, 4, 3}))
+		}
+		keep := ref.AnnexB(call, callCodes[ci])
+		in, intact := guard(keep)
 		out := p.Payload(uint16(mtu), in)
 		c.Ops(1)
-		if !bytes.Equal(in, keep) {
+		if !bytes.Equal(in, keep) || !intact() {
 			c.Failf("input-modified", "%s: Payload changed its input", desc())
 		}
 		payloads = append(payloads, cloneAll(out)...)
@@ -250,6 +262,9 @@ func c10Core(c *mc.Ctx, mtu int, disableStapA, avc bool, raw [][]byte, codes []i
 	d := &codecs.H264Packet{IsAVC: avc}
 	var outAll []byte
 	for i, pl := range payloads {
+		if decoyD != nil {
+			_, _ = decoyD.Unmarshal([]byte{0x7C, 0x85, 0xD1, 0xD2, 0xD3}) // start of a unit that never ends
+		}
 		o, err := d.Unmarshal(pl)
 		c.Ops(1)
 		if err != nil {
@@ -421,7 +436,12 @@ func c10Decoder(c *mc.Ctx) {
 }
 
 // c10Wide: dimensions the product scenario keeps small, taken one at a time.
+// c10Decoy makes c10Core interleave the calls of an unrelated second payloader and depacketizer.
+var c10Decoy bool
+
 func c10Wide(c *mc.Ctx) {
+	c10Decoy = c.Bool()
+	defer func() { c10Decoy = false }()
 	kind := c.Pick(4)
 	avc := c.Bool()
 	disableStapA := c.Bool()
